@@ -18,7 +18,7 @@ PARTIAL = ["the link from runs of the executable model to the abstract infection
 def _jobs(ctx):
     q = ctx.quick()
     n = 40 if q else 500
-    return sc.corpus_job(ctx) + [(f'models{k}', ['models', n]) for k in range(6 if q else 10)] + [(f'comp{k}', ['compete8', n]) for k in range(6 if q else 10)]
+    return sc.corpus_job(ctx) + [(f'models{k}', ['models', n]) for k in range(6 if q else 10)] + [(f'comp{k}', ['compete8', n]) for k in range(5 if q else 10)] + [(f'rr{k}', ['rerun_fix', n]) for k in range(2 if q else 4)] + [('forced', ['forced', n])]
 
 
 def _nt(e):
@@ -30,7 +30,7 @@ def tie(ctx):
 
 
 def search(ctx, hint):
-    return sc.search_with(ctx, hint, [(f's{k}', ['compete8', 200]) for k in range(8)])
+    return sc.search_with(ctx, hint, [(f's{k}', ['compete8', 200]) for k in range(6)] + [('r', ['rerun_fix', 200]), ('f', ['forced', 200])])
 
 
 def replay(ctx, rep):
